@@ -55,6 +55,17 @@ func addIntrinsics(P *Program) {
 	reg("Int32", intOf(types.Int32))
 	reg("Int", intOf(types.Int))
 	reg("Byte", intOf(types.Uint8))
+	reg("IntRange", func(i *interpreter, fr *frame, fn *ssa.Function, args []value) value {
+		name := goString(args[0], "vsym name")
+		lo, hi := asInt64(args[1]), asInt64(args[2])
+		if c := i.w.concrete; c != nil {
+			bits, _ := ParseBV(c.Model[i.freshName(name)])
+			return int(bits)
+		}
+		v := i.newVar(name, SInt)
+		i.assume(And(App("<=", SBool, IntConst(lo), v), App("<=", SBool, v, IntConst(hi))))
+		return symv{types.Int, v}
+	})
 	reg("Bool", func(i *interpreter, fr *frame, fn *ssa.Function, args []value) value {
 		return i.symBool(goString(args[0], "vsym name"))
 	})
